@@ -35,3 +35,50 @@ Example define_nonvacuous :
   | Throw _ => False
   end.
 Proof. vm_compute. auto. Qed.
+
+(* ===== merged from Properties_DefineRun.v ===== *)
+From PatchV Require Import Base Lines Hunk Locator Formatter Options Applier World Driver
+     Spec_Apply Spec_Define Proofs_Conf Proofs_Define Proofs_Reverse Proofs_DefineRun.
+
+(* apply_patch under -D on a conforming patch A -> B answers (write_define_hunk never leaves the file), rejects nothing,
+   says nothing, and its output is B to a preprocessor with the symbol defined and A with the symbol undefined. *)
+Theorem apply_conforming_define : forall o p A B,
+  define_macro o <> [] -> verbose o = false -> (0 <= max_fuzz o)%Z ->
+  Conforming A B (hunks (effective o p)) -> (Z.of_nat (length A) < MAXZ)%Z ->
+  creation_guard (effective o p) A ->
+  Forall (line_ok (define_macro o)) A ->
+  Forall (fun h => body_ok (define_macro o) (body h)) (hunks p) ->
+  exists r, apply_patch o A p = Ok r /\
+            cpp_eval (define_macro o) true (r_out r) = Some B /\
+            cpp_eval (define_macro o) false (r_out r) = Some A /\
+            r_failed r = 0 /\ r_rej r = [] /\
+            r_skipped r = false /\ r_perfect r = true /\ r_msgs r = [] /\
+            exists hs', r_patch r = set_hunks (effective o p) hs'.
+Proof. exact Proofs_DefineRun.apply_conforming_define. Qed.
+Print Assumptions apply_conforming_define.
+
+(* The section: f holds A; after process_section f holds the bytes of lines R with cpp_eval SYM true R = B and
+   cpp_eval SYM false R = A (so all conditionals are balanced); the section answers Ok with the driver state unchanged
+   (no failure recorded, no reject file, nothing deferred, no backup), no other path is touched. *)
+Theorem section_define : forall o p f A B st s w data mode,
+  define_options o -> reverse_patch_opt o = false ->
+  pfmt p <> FGit -> (poper p = OpChange \/ poper p = OpAdd \/ poper p = OpDelete) ->
+  prereq p = [] -> old_path p = f -> new_path p = f -> new_mode p = 0%N ->
+  f <> Driver.devnull -> f <> [] -> ~ In 47%N f ->
+  Conforming A B (hunks p) ->
+  Forall (line_ok (define_macro o)) A ->
+  Forall (fun h => body_ok (define_macro o) (body h)) (hunks p) ->
+  remove_empty_files o <> OBYes ->
+  (Z.of_nat (length A) < MAXZ)%Z ->
+  fault w = None -> deferred_writes st = [] ->
+  lookup (fs w) f = Some (Reg data mode) -> (mode < 4096)%N -> owner_r mode = true -> owner_w mode = true ->
+  split_lines data = A ->
+  exists st' w' R,
+    process_section o st false p s w = (Ok (st', s), w') /\
+    lookup (fs w') f = Some (Reg (lines_bytes (newline_output o) R) mode) /\
+    cpp_eval (define_macro o) true R = Some B /\
+    cpp_eval (define_macro o) false R = Some A /\
+    (forall q, q <> f -> lookup (fs w') q = lookup (fs w) q) /\
+    same_state st st' /\ fault w' = None /\ umask w' = umask w.
+Proof. exact Proofs_DefineRun.section_define. Qed.
+Print Assumptions section_define.
